@@ -574,3 +574,47 @@ def replay_output_selection(obligation=None, model=None, meta=None):
     return {'confirmed': False, 'tried': n}
 
 replay_output_selection.real_system = True       # drives the real program on stock inputs: a crash inside repository code is a confirmed failure
+
+
+def replay_thinning(obligation=None, model=None, meta=None):
+    """native: a run that the stability criterion stops early, stored with save_every = 2, 3, 5: every stored row is a row of the same run
+    stored at every step (same time stamp, same values), and the stored times are those of every k-th accepted step"""
+    import contextlib
+    import io
+    import logging
+    import numpy as np
+    import andes
+    logging.getLogger('andes').setLevel(logging.CRITICAL)
+
+    def run(save_every, early):
+        with contextlib.redirect_stdout(io.StringIO()), contextlib.redirect_stderr(io.StringIO()):
+            ss = andes.load(andes.get_case('kundur/kundur_full.xlsx'), default_config=True, no_output=True, setup=False)
+            for tg in list(ss.Toggle.idx.v):
+                ss.Toggle.alter('u', tg, 0)
+            if early:
+                ss.add('Fault', dict(bus=7, tf=1.0, tc=1.6, xf=0.0001))
+            ss.setup()
+            ss.PFlow.run()
+            ss.TDS.config.tf = 2.5 if early else 1.0
+            ss.TDS.config.save_every = save_every
+            ss.TDS.run()
+        return np.array(ss.dae.ts.t), np.array(ss.dae.ts.xy), float(ss.dae.t)
+    n = 0
+    for early in (True, False):
+        t1, xy1, _ = run(1, early)
+        for k in (2, 3, 5):
+            n += 1
+            tk, xyk, _ = run(k, early)
+            what = {'case': 'kundur_full' + (' with a bolted fault on bus 7 from 1.0 to 1.6 s (stopped by the angle criterion)' if early else ', 1 s, no event'), 'save_every': k}
+            for i, t in enumerate(tk):
+                j = np.where(t1 == t)[0]
+                if len(j) != 1:
+                    return {'confirmed': True, 'inputs': what, 'observed': 'stored row with t = %r is not a step of the run stored at every step (last stored step of that run: t = %r)' % (float(t), float(t1[-1])),
+                            'native_cmd': 'contracts/fn_output.py replay_thinning'}
+                if not np.array_equal(xyk[i], xy1[j[0]]):
+                    return {'confirmed': True, 'inputs': what, 'observed': 'row at t = %r differs from the row of the run stored at every step (max difference %.3e)' % (
+                        float(t), float(np.max(np.abs(xyk[i] - xy1[j[0]])))), 'native_cmd': 'contracts/fn_output.py replay_thinning'}
+    return {'confirmed': False, 'tried': n}
+
+
+replay_thinning.real_system = True
